@@ -5,7 +5,7 @@
 //! attachment among append / prepend / insert_before / insert_after /
 //! new_document_with_element.
 
-use crate::absdoc::{self, AContent, ADoc, AElem, GenCfg};
+use crate::absdoc::{self, fx_doc, fx_elem, AContent, ADoc, AElem, GenCfg};
 use crate::driver::{real_call, EngineFailure, PropEngine};
 use crate::hashseam;
 use crate::known::KnownFile;
@@ -33,47 +33,6 @@ pub struct C20Replay {
 }
 
 // ------------------------------------------------------------------ fixed route
-
-fn fx_name(n: &crate::model::Nm) -> xot::fixed::Name {
-    xot::fixed::Name { namespace: n.uri.clone(), localname: n.local.clone() }
-}
-fn fx_elem(e: &AElem) -> xot::fixed::Element {
-    xot::fixed::Element {
-        name: fx_name(&e.name),
-        prefixes: e.decls.iter().map(|(p, u)| xot::fixed::Prefix { name: p.clone(), namespace: u.clone() }).collect(),
-        attributes: e.attrs.iter().map(|(n, _, val)| (fx_name(n), val.clone())).collect(),
-        children: e
-            .kids
-            .iter()
-            .map(|k| match k {
-                AContent::Elem(e) => xot::fixed::Content::Element(fx_elem(e)),
-                AContent::Text(t) => xot::fixed::Content::Text(t.clone()),
-                AContent::Comment(t) => xot::fixed::Content::Comment(t.clone()),
-                AContent::PI(t, d) => xot::fixed::Content::ProcessingInstruction(xot::fixed::ProcessingInstruction {
-                    target: t.clone(),
-                    content: d.clone(),
-                }),
-            })
-            .collect(),
-    }
-}
-fn fx_misc(c: &AContent) -> xot::fixed::DocumentContent {
-    match c {
-        AContent::Comment(t) => xot::fixed::DocumentContent::Comment(t.clone()),
-        AContent::PI(t, d) => xot::fixed::DocumentContent::ProcessingInstruction(xot::fixed::ProcessingInstruction {
-            target: t.clone(),
-            content: d.clone(),
-        }),
-        _ => unreachable!(),
-    }
-}
-fn fx_doc(d: &ADoc) -> xot::fixed::Document {
-    xot::fixed::Document {
-        before: d.before.iter().map(fx_misc).collect(),
-        document_element: fx_elem(&d.root),
-        after: d.after.iter().map(fx_misc).collect(),
-    }
-}
 
 // ------------------------------------------------------------------ stepwise route
 
@@ -415,7 +374,11 @@ fn build_stepwise(x: &mut Xot, d: &ADoc, rng: &mut Rng, cons_off: bool, stats: &
                 let pid = x.add_prefix(p);
                 let uid = x.add_namespace(u);
                 let h = handle[i].unwrap();
-                match rng.below(3) {
+                match rng.below(4) {
+                    3 => {
+                        log.push(format!("namespaces_mut(#{}).entry({:?}).or_insert({:?})", i, p, u));
+                        x.namespaces_mut(h).entry(pid).or_insert(uid);
+                    }
                     0 => {
                         log.push(format!("namespaces_mut(#{}).insert({:?},{:?})", i, p, u));
                         x.namespaces_mut(h).insert(pid, uid);
@@ -440,7 +403,16 @@ fn build_stepwise(x: &mut Xot, d: &ADoc, rng: &mut Rng, cons_off: bool, stats: &
                 let (nm, _, val) = &f.elems[ei].attrs[k];
                 let nid = name_id(x, nm);
                 let h = handle[i].unwrap();
-                match rng.below(4) {
+                match rng.below(6) {
+                    4 => {
+                        log.push(format!("attributes_mut(#{}).entry({:?}).or_insert({:?})", i, nm, val));
+                        x.attributes_mut(h).entry(nid).or_insert(val.clone());
+                    }
+                    5 => {
+                        log.push(format!("attributes_mut(#{}).entry({:?}).or_default() then set {:?}", i, nm, val));
+                        let mut view = x.attributes_mut(h);
+                        *view.entry(nid).or_default() = val.clone();
+                    }
                     0 => {
                         log.push(format!("attributes_mut(#{}).insert({:?},{:?})", i, nm, val));
                         x.attributes_mut(h).insert(nid, val.clone());
@@ -518,7 +490,10 @@ fn run_inner(r: &C20Replay, stats: &mut Stats, sample: Option<&mut Vec<String>>)
         Err(e) => return Some(v("routes-differ", format!("rendering {:?} of the abstract document does not parse: {:?}", text, e))),
     };
     // (b) fixed:: structure
-    let b = fx_doc(d).xotify(&mut x);
+    let mut split_coin = Rng::new(r.cdata_seed ^ 0x5a5a);
+    let cons_off = r.cons_off;
+    let mut split = move || !cons_off && split_coin.pct(25);
+    let b = fx_doc(d, &mut split).xotify(&mut x);
     // (c) stepwise, seeded order
     let mut rng = Rng::new(r.order_seed);
     let (c, log) = match build_stepwise(&mut x, d, &mut rng, r.cons_off, stats) {
@@ -534,7 +509,7 @@ fn run_inner(r: &C20Replay, stats: &mut Stats, sample: Option<&mut Vec<String>>)
         *s = log.clone();
     }
     // (b') fixed::Element::xotify of the document element alone must equal the document element
-    let be = fx_elem(&d.root).xotify(&mut x);
+    let be = fx_elem(&d.root, &mut split).xotify(&mut x);
     match (x.document_element(b), canon_of(&x, be)) {
         (Ok(de), Ok(ce)) => {
             let mut budget = NODE_LIMIT;
@@ -583,7 +558,24 @@ fn run_inner(r: &C20Replay, stats: &mut Stats, sample: Option<&mut Vec<String>>)
     if strings[0] != strings[1] || strings[0] != strings[2] {
         return Some(v("serialisation-differs", format!("parse: {:?}; fixed: {:?}; stepwise: {:?}", strings[0], strings[1], strings[2])));
     }
-    // the serialisation must parse back to the same abstract document
+    // the serialisation must parse back to the same abstract document (a declaration of the
+    // built-in pair xmlns:xml=... is never written, so it is not there after the round trip)
+    let expect = {
+        fn strip(e: &mut AElem) {
+            e.decls.retain(|(p, u)| !(p == "xml" && u == absdoc::XML_NS));
+            for k in e.kids.iter_mut() {
+                if let AContent::Elem(c) = k {
+                    strip(c);
+                }
+            }
+        }
+        let mut d2 = d.clone();
+        strip(&mut d2.root);
+        let mut m2 = Model::new();
+        m2.begin_op(1);
+        let r2 = absdoc::model_doc(&mut m2, &d2);
+        m2.canon(r2)
+    };
     match x.parse(&strings[0]) {
         Ok(n) => match canon_of(&x, n) {
             Ok(s) if s == expect => {}
@@ -614,6 +606,7 @@ impl PropEngine for C20Engine {
         let mut rng = Rng::new(run_seed);
         let mut cfg = GenCfg::swarm(&mut rng);
         cfg.xml_id_pct = cfg.xml_id_pct.min(10);
+        cfg.xml_prefix_decl_pct = *rng.pick(&[0u32, 0, 3, 10]);
         if rng.pct(50) {
             cfg.misc_pct = cfg.misc_pct.max(40);
         }
